@@ -605,17 +605,27 @@ class DEVSSimulator(Simulator[TIME], Generic[TIME]):
         
     def _run(self):
         self._runflag = True
+        # never run beyond the end of the replication
+        end_time = self._replication.end_sim_time
+        until = self._run_until_time
+        including = self._run_until_including
+        if until > end_time:
+            until = end_time
+            including = True
         while not self.is_stopping_or_stopped():
             # check if we are done
             if self.eventlist().is_empty():
-                t = self._run_until_time
+                t = until
             else:
                 t = self.eventlist().peek_first().time
-            if (t > self._run_until_time or (t == self._run_until_time \
-                    and not self._run_until_including) 
+            if (t > until or (t == until and not including) 
                     or self.eventlist().is_empty()):
-                self._simulator_time = self._run_until_time
-                self._replication_state = ReplicationState.ENDING
+                # the clock never moves backwards
+                if until > self._simulator_time:
+                    self._simulator_time = until
+                # the replication only ends when its end time was reached
+                if until >= end_time and including:
+                    self._replication_state = ReplicationState.ENDING
                 self._run_state = RunState.STOPPING
                 return;
             # get the first event
